@@ -13,7 +13,7 @@ META = {
         "write_all has no `n == 0` guard (read_all has): a write() that keeps returning 0 for count > 0 would spin; not possible on Linux pipes, covered by the budget assumption above",
         "C16.deser.safe.*: arbitrary bytes in a buffer object of exactly buf_size bytes (any buf_size up to 2^32-1); X over the tag class of the first byte {every tag but string/array, string, array}; recursive calls (array elements) get the SAME contract for any tag as induction hypothesis (--enforce-contract-rec); the array loop has a loop contract (sidecar) with variant count-i",
         "allocation succeeds (framework-wide); C16.deser.alloc.array restricts that assumption to requests of at most COP_MAX_PAYLOAD elements and is EXPECTED to be refuted: the element count comes from the peer and goes unchecked into calloc(count,16)",
-        "stack exhaustion is invisible to CBMC; C16.deser.depth.array bounds a ghost frame counter (two inserted ghost assignments) by COP_MAX_DEPTH=1024 and is EXPECTED to be refuted: recursion depth is bounded only by payload_len/6",
+        "stack exhaustion is invisible to CBMC; C16.deser.depth.array bounds the decoder's depth parameter (precondition depth <= COP_DEPTH_LIMIT = 1024 on every recursive call); the frame size itself is not measured",
         "C16.deser.safe.string is EXPECTED to be refuted: `pos + len > buf_size` wraps in uint32 for len >= 2^32-5, vm_string_new is then handed a range outside the buffer",
         "C16.call / C16.stop: protocol functions replaced by caller-view contracts (conjunction of what C15.ser.*, C16.deser.safe.*, C16.recv.*, C16.send.* enforce, r_ok/w_ok instead of fresh objects: that step is not machine-checked); hence C16.call is conditional on C16.deser.safe.string being repaired.  vm_ffi_cop_start and vm_ffi_call are replaced by stated contracts (fork/exec/dlopen are not modelled).  String arguments are NULL in C16.call.  error_msg_size in 1..4096 (the VM passes 256); the three co-process fields satisfy fd >= -1",
         "C16.call proves: memory safety and frame of vm_ffi_call_cop for every peer behaviour; success => transferable result tag; failed request send or failed/rejected response header => waitpid on the co-process pid was reached and cop_pid = cop_in_fd = cop_out_fd = -1; kill() only ever targets a positive pid.  NOT claimed: content / NUL-termination of error_msg (snprintf is a stub); recv_buf freed on every path (read, not proved); after a failed PAYLOAD receive or an FFI_ERROR longer than error_msg the co-process is kept although the stream is out of step (the next call fails on the header and relaunches)",
@@ -24,7 +24,7 @@ META = {
 
 HARNESS = "harness/cop_h.c"
 HEAPREPL = ["vm_string_new", "vm_array_new", "vm_array_push"]
-DECLOOP = "cop_deserialize_value_wrapped_for_contract_checking.0"
+DECLOOP = "deserialize_value_at_wrapped_for_contract_checking.0"
 COPANN = [("src/nanovm/cop_protocol.c", "contracts/loops/cop_protocol.c.loops")]
 
 
@@ -37,36 +37,42 @@ def obligations(repo):
     for c, nm in [(0, "scalar_other"), (1, "string")]:
         obs.append(dict(id="C16.deser.safe." + nm, prop="C16", harness=HARNESS, entry="h_safe",
                         defines={"COP_VIEW_SAFE": 1, "COP_SAFE_CLASS": c},
-                        gi_flags=rec("cop_deserialize_value"), replace=HEAPREPL, unwind=6, unwindset=[DECLOOP + ":1"],
-                        strength="X", functions=["cop_deserialize_value"],
-                        must_have=[r"cop_deserialize_value\.postcondition", r"COVER"] + ([r"vm_string_new\.precondition"] if c == 1 else []),
+                        gi_flags=rec("deserialize_value_at"), replace=HEAPREPL, unwind=6, unwindset=[DECLOOP + ":1"],
+                        strength="X", functions=["deserialize_value_at"],
+                        must_have=[r"deserialize_value_at\.postcondition", r"COVER"] + ([r"vm_string_new\.precondition"] if c == 1 else []),
                         min_checks=30, witness={"replayer": "cop"}))
     # array arm: loop contract (sidecar), recursion = induction hypothesis, heap layer by contract
     obs.append(dict(id="C16.deser.safe.array", prop="C16", harness=HARNESS, entry="h_safe", annotate=COPANN,
                     defines={"COP_VIEW_SAFE": 1, "COP_SAFE_CLASS": 2},
-                    gi_flags=rec("cop_deserialize_value"), replace=HEAPREPL, loops=True, unwind="auto",
-                    strength="X", functions=["cop_deserialize_value"], timeout=900,
-                    must_have=[r"cop_deserialize_value\.postcondition", r"loop_invariant_step", r"decreases", r"COVER",
-                               r"cop_deserialize_value\.precondition"],
+                    gi_flags=rec("deserialize_value_at"), replace=HEAPREPL, loops=True, unwind="auto",
+                    strength="X", functions=["deserialize_value_at"], timeout=900,
+                    must_have=[r"deserialize_value_at\.postcondition", r"loop_invariant_step", r"decreases", r"COVER",
+                               r"deserialize_value_at\.precondition"],
                     min_checks=30, witness={"replayer": "cop", "override": {"loops": False, "annotate": [], "unwind": 6, "unwindset": [DECLOOP + ":3"], "object_bits": 10}}))
     # the same, with the allocation assumption restricted to requests proportional to the message size:
     # the element count is taken from the peer (u32) and passed unchecked to vm_array_new -> calloc(count, 16)
     obs.append(dict(id="C16.deser.alloc.array", prop="C16", harness=HARNESS, entry="h_safe", annotate=COPANN,
                     defines={"COP_VIEW_SAFE": 1, "COP_SAFE_CLASS": 2, "COP_ALLOC_BOUND": 1},
-                    gi_flags=rec("cop_deserialize_value"), replace=HEAPREPL, loops=True, unwind="auto",
-                    strength="X", functions=["cop_deserialize_value"], timeout=900,
+                    gi_flags=rec("deserialize_value_at"), replace=HEAPREPL, loops=True, unwind="auto",
+                    strength="X", functions=["deserialize_value_at"], timeout=900,
                     must_have=[r"vm_array_new\.precondition", r"loop_invariant_step", r"COVER"],
                     min_checks=30, witness={"replayer": "cop", "override": {"loops": False, "annotate": [], "unwind": 6,
                                             "unwindset": [DECLOOP + ":3"], "object_bits": 10}}))
-    # recursion depth: ghost frame counter (inserted ghost statements), bounded by the contract
-    obs.append(dict(id="C16.deser.depth.array", prop="C16", harness=HARNESS, entry="h_safe",
-                    annotate=[("src/nanovm/cop_protocol.c", "contracts/loops/cop_protocol.c.depth.loops")],
-                    defines={"COP_VIEW_SAFE": 1, "COP_SAFE_CLASS": 2, "COP_DEPTH_GHOST": 1},
-                    gi_flags=rec("cop_deserialize_value"), replace=HEAPREPL, loops=True, unwind="auto",
-                    strength="X", functions=["cop_deserialize_value"], timeout=900,
-                    must_have=[r"cop_deserialize_value\.precondition", r"loop_invariant_step", r"COVER"],
-                    min_checks=30, witness={"replayer": "cop", "override": {"loops": False, "unwind": 6,
+    # recursion depth: the decoder carries its nesting depth as a parameter (since the repo fix); the contract demands
+    # depth <= COP_DEPTH_LIMIT of every call, so the recursive call's precondition is the bound on the C stack
+    obs.append(dict(id="C16.deser.depth.array", prop="C16", harness=HARNESS, entry="h_safe", annotate=COPANN,
+                    defines={"COP_VIEW_SAFE": 1, "COP_SAFE_CLASS": 2},
+                    gi_flags=rec("deserialize_value_at"), replace=HEAPREPL, loops=True, unwind="auto",
+                    strength="X", functions=["deserialize_value_at"], timeout=900,
+                    must_have=[r"deserialize_value_at\.precondition", r"loop_invariant_step", r"COVER"],
+                    min_checks=30, witness={"replayer": "cop", "override": {"loops": False, "annotate": [], "unwind": 6,
                                             "unwindset": [DECLOOP + ":3"], "object_bits": 10}}))
+    # the public entry point: starts the recursion at depth 0 (helper replaced by the contract proved above)
+    for c, nm in [(0, "scalar"), (1, "string"), (2, "array")]:
+        obs.append(dict(id="C16.deser.wrapper." + nm, prop="C16", harness=HARNESS, entry="h_wrapper",
+                        defines={"COP_VIEW_SAFE": 1, "COP_SAFE_CLASS": c}, enforce="cop_deserialize_value",
+                        replace=["deserialize_value_at"], unwind=6, strength="U", functions=["cop_deserialize_value"],
+                        must_have=[r"cop_deserialize_value\.postcondition", r"deserialize_value_at\.precondition", r"COVER"], min_checks=10))
     # pipe I/O under an adversarial OS (read/write stub bodies in the harness)
     io = {"COP_VIEW_IO": 1}
     obs.append(dict(id="C16.recv.read_all", prop="C16", harness=HARNESS, entry="h_read_all", annotate=COPANN, defines=io,
